@@ -72,6 +72,14 @@ def main():
             if pl is None:
                 return [("reply", dnslib.build_reply(q, rcode=3), 0)]
             ans = [(qn, 1, 60, struct.pack(">I", case))]
+            try:
+                _labels, _o = dnslib.dec_name(q, 12)
+                qclass = struct.unpack(">H", q[_o + 2:_o + 4])[0]
+            except Exception:  # noqa: BLE001
+                qclass = 1
+            if qclass != 1:
+                # the same name asked in another class gets another answer (as version.bind CH/IN would)
+                return [("reply", dnslib.build_reply(q, answers=[(qn, 1, 60, b"\xde\xad\xbe\xef")]), 0)]
             good = dnslib.build_reply(q, answers=ans)
             if pl.kind == "silent":
                 return [("drop",)]
@@ -306,6 +314,18 @@ def main():
                     threads.append(threading.Thread(target=one_tcp, args=(c, lname, 15.0), kwargs=kw))
                 plans[c].variant = variant
             run_batch(threads)
+        # ---- phase B1: the same name first in class CH (or HS, or 255), then in class IN: the IN client must get the IN answer
+        for k, lname in enumerate([l for l in listeners if l != 'second']):
+            c = new_case("ok")
+            plans[c].variant = "in-after-other-class"
+            fam, dst, _ = listeners[lname]
+            qother = dnslib.build_query(rnd.randrange(65536), "q%d.c07.test" % c, qclass=[3, 4, 255, 2][k % 4], edns=1232)
+            try:
+                dnslib.udp_query(dst, qother, timeout=5.0, family=fam)
+                dnslib.tcp_query(dst, qother, timeout=5.0, family=fam)
+            except OSError:
+                pass
+            (one_udp if k % 2 == 0 else one_tcp)(c, lname, 10.0)
         # ---- phase B2: an upstream reply that arrives in two pieces on the shared upstream connection while further
         # queries for that upstream come in during the gap (cut inside the length prefix, just after it, mid-body)
         for rnd_i, cut in enumerate([1, 2, 3, 700, 9000] if not thorough else [1, 2, 3, 10, 700, 1400, 4096, 9000, 20000]):
